@@ -21,7 +21,9 @@ EXPLANATION = (
     "authenticator and a locally computed value, one of them a whole fixed-size array of the MAC "
     "width; the computed operand's dependency slice contains every other parameter (key, input); "
     "the crate-local primitive types reached from the verify function equal those reached from the "
-    "matching one-shot function.")
+    "matching one-shot function. RANGE: per-path interval propagation over the length guards of "
+    "crypto_generichash / crypto_generichash_init - every digest length and every key length (on the paths "
+    "where a key is present) in 16..=64 reaches an Ok-capable exit.")
 NOT_DECIDED = (
     "equality of BLAKE2b, SHA-512, HMAC-SHA-512-256, Poly1305, SipHash-2-4, HSalsa20, HChaCha20 and the "
     "little-endian increment with their specifications on every input (numerical, value-level) - the "
@@ -130,7 +132,55 @@ def run(ctx, rep):
                    "crate-local primitive types reached: one-shot %s, verify %s" % (sorted(t1), sorted(t2)), loc=f.loc())
             rep.sample({"verify": f.path, "roots": [g.path for g in roots], "prims": sorted(t2)})
     rep.floor("verify functions", n, 6)
+    accepted_ranges(rep, prog)
     # the incremental verify functions accept the correct authenticator only if the inner hashers'
     # pending-buffer invariant holds (shared with C08): a full block left pending is mis-finalised
     from .c08 import buffer_invariants
     buffer_invariants(rep, prog, "")
+
+
+# public generic-hash entry points: "every digest length 16..=64, unkeyed or keyed with any key of 16..=64 bytes"
+# (public constants CRYPTO_GENERICHASH_BYTES_MIN/MAX, CRYPTO_GENERICHASH_KEYBYTES_MIN/MAX)
+GH_RANGE = (16, 64)
+GH_ENTRY = ("classic::crypto_generichash::crypto_generichash", "classic::crypto_generichash::crypto_generichash_init")
+
+
+def _covers(iv):
+    return all(any((lo is None or lo <= n) and (hi is None or n <= hi) for lo, hi in iv) for n in range(GH_RANGE[0], GH_RANGE[1] + 1))
+
+
+def accepted_ranges(rep, prog):
+    """RANGE (structural part of "for every digest length 16..=64 ... any key of 16..=64 bytes"): following every
+    path of the public entry point (private helpers folded in), the length guards let every digest length
+    in 16..=64 and - on the paths where a key is present - every key length in 16..=64 through to an
+    Ok-capable exit.  (That other lengths are refused is not part of C07's statement and is not required.)"""
+    from ..inline import inline
+    from ..guards import edge_facts
+    n = 0
+    for path in GH_ENTRY:
+        fs = prog.by_path.get(path, [])
+        if not fs:
+            rep.violation("ANCHOR", path, "public generic-hash entry point not found (fail closed)")
+            continue
+        f = inline(prog, fs[0])
+        ef = edge_facts(f, cm.view_info)
+        nm = path.split("::")[-1]
+        ty = lambda p: f.locals[p]["t"].replace("'_ ", "")
+        keys = [p for p in cm.params_of(f) if ty(p) == "std::option::Option<&[u8]>"]
+        outs = [("len", p) for p in cm.params_of(f) if ty(p) == "&mut [u8]"] or [("local", p) for p in cm.params_of(f) if ty(p) == "usize"]
+        if len(keys) != 1 or len(outs) != 1:
+            rep.violation("ANCHOR", nm + "|parameters", "cannot tell the key / digest-length parameters of the public entry point (fail closed)", loc=f.loc())
+            continue
+        iv = cm.accepted_intervals(f, outs[0], (0,), ef)
+        n += 1
+        rep.ob("RANGE", "%s|digest length" % nm, _covers(iv),
+               "Ok-capable exits are reachable for digest length in %s (every length %d..=%d must be accepted)" % (sorted(iv, key=str), GH_RANGE[0], GH_RANGE[1]), loc=f.loc())
+        some = cm.some_arm_blocks(f, keys[0])
+        if not some:
+            rep.violation("RANGE", "%s|key length" % nm, "no match on the optional key found in the entry point's view: key length unchecked", loc=f.loc())
+            continue
+        iv = cm.accepted_intervals(f, ("len", keys[0]), tuple(some), ef)
+        n += 1
+        rep.ob("RANGE", "%s|key length" % nm, _covers(iv),
+               "with a key present, Ok-capable exits are reachable for key length in %s (every length %d..=%d must be accepted)" % (sorted(iv, key=str), GH_RANGE[0], GH_RANGE[1]), loc=f.loc())
+    rep.floor("generic-hash accepted ranges", n, 4)
